@@ -3,7 +3,7 @@
 n=$1; id=${2:-${n%%-*}}
 if [ -n "$(git -C /repo status --porcelain --untracked-files=no)" ]; then echo "/repo has uncommitted tracked changes"; exit 4; fi
 cd /repo && git apply /verif/seeded/$n/patch.diff || exit 3
-/verif/bin/govc verify -repo /repo -property $id -replays /tmp/vf-replays-seed -known /verif/known_findings.jsonl > /tmp/seed_check_$n.log 2>&1; rc=$?; if [ "$id" = C03 ] && [ $rc -eq 0 ]; then /verif/tools/bounded_c03.sh /repo "" >> /tmp/seed_check_$n.log 2>&1; rc=$?; fi
+/verif/bin/govc verify -repo /repo -property $id -replays /tmp/vf-replays-seed -known /verif/known_findings.jsonl > /tmp/seed_check_$n.log 2>&1; rc=$?; if { [ "$id" = C03 ] || [ "$id" = C02 ]; } && [ $rc -eq 0 ]; then /verif/tools/bounded_c03.sh /repo "" "$id" >> /tmp/seed_check_$n.log 2>&1; rc=$?; fi
 git -C /repo checkout -- .
 grep -E "^VIOLATION|^property=|^UNDECIDED" /tmp/seed_check_$n.log | cut -c1-300
 echo "check exit code: $rc"
